@@ -25,6 +25,12 @@ CLAIMED = {
  "C15": dict(tech="TLA+ lease spec (Lease.tla + env/LeaseStore.tla) model-checked with TLC; TLC-generated operation sequences replayed on the real redisElection against a lease store that interprets the received Lua text; TLC trace validation (TraceLease.tla)",
              text="TLC explores all interleavings of campaign/renew/resign by 3 contenders with ticks, lost replies and failed calls (at most one acting leader, acting implies holder, holder ceases within one lease period); every operation sequence up to the history bound plus seeded random sequences is executed on the real election code; each reply, the store's holder and remaining time, and the leadership told to instances are judged against the intended compare-and-set semantics.",
              note="Mini Lua interpreter limited to the scripts' constructs (else exit 2); 1 s virtual clock ticks; etcd election not covered.", ref="4 C15"),
+ "C05": dict(tech="TLA+ design model of the cache (Cache.tla: segments, rotation, reference-counted collection, readers) model-checked with TLC + TLC trace validation (TraceCache.tla) of seeded operation sequences on the real disk and memory channels",
+             text="TLC checks the design (reader never loses its segment, valid implies readable, contiguous range, snapshot kept only with its continuation) over all interleavings of writer, collector and two readers within the bound. The real StoreChannel and MemoryChannel are driven with seeded operation sequences (snapshot writers incl. abort, log appends across rotation, collector passes, readers at arbitrary offsets, writer replacement, DelRunId, crc verification on); writers are fed byte = f(history, offset), so every delivered byte names its offset; TLC judges every range / validity / snapshot offer / delivery against what was written.",
+             note="Operations are sequential at the harness; GC timing not prescribed; content compared in Go.", ref="4 C05"),
+ "C08": dict(tech="TLC trace validation (TraceCacheCrash.tla) of the answers of a fresh disk channel reopened on directory images frozen before every file mutation of live writers (hook point store.fs), plus Cache.tla as design model",
+             text="The disk cache directory is copied just before every file-system mutation (segment create/append/seal, snapshot tmp create/append/rename, per-file removal during reset and collector passes) of seeded write sequences; a fresh StoreChannel is opened on each image (and on a quarter of them with one byte of a closed segment altered, crc verification on); TLC judges: reported range fully readable, every served byte is the source byte of that offset, validity only inside range/snapshot, offered snapshot complete, altered segment never served.",
+             note="Process death with coherent page cache; no reordering of unsynced writes.", ref="4 C08"),
  "C09": dict(tech="TLC on Replay.tla (TxnMode) + TLC trace validation of real transactional runs with crash enumeration",
              text="For every source MULTI/EXEC group the target must apply all of its data commands in one EXEC block that also carries a position >= the group's EXEC; no stored or returned resume position may lie inside a group, at any crash point.",
              note="Standalone target with real MULTI/EXEC semantics modelled in TLA+.", ref="4 C09"),
@@ -33,9 +39,7 @@ CLAIMED = {
 PENDING = {
  "C03": "check not built yet (FullSync.tla + rdbgen planned, DESIGN 4 C03)",
  "C04": "check not built yet (FullSync.tla fault model, DESIGN 4 C04)",
- "C05": "check not built yet (Cache.tla, DESIGN 4 C05)",
  "C06": "check not built yet (Resync.tla, DESIGN 4 C06)",
- "C08": "check not built yet (CacheCrash.tla, DESIGN 4 C08)",
  "C13": "check not built yet (Bisync.tla, DESIGN 4 C13)",
  "C14": "check not built yet (BisyncFrontier.tla, DESIGN 4 C14)",
  "C16": "check not built yet (Replica.tla, DESIGN 4 C16)",
